@@ -22,7 +22,14 @@ def main():
         core.DEFAULT_PROPS[:] = list(getattr(mod, 'PROPS', []))
         if getattr(mod, 'REPLAY', None): core.DEFAULT_REPLAY['replay'] = dict(mod.REPLAY)
         src = core.Source(edits=[tuple(e.split('=>', 1)) for e in a.edit])
-        info = mod.generate(src) or {}
+        try:
+            info = mod.generate(src) or {}
+        except core.Unsupported: raise
+        except (KeyError, AttributeError, IndexError, AssertionError, TypeError, StopIteration) as ex:
+            # the contract could not be bound to the code as it is written now (a renamed local, a changed call shape, ...): UNDECIDED, never a violation
+            tb = traceback.extract_tb(ex.__traceback__)
+            where = next((f"{os.path.basename(fr.filename)}:{fr.lineno}" for fr in reversed(tb) if '/specs/' in fr.filename), f"{os.path.basename(tb[-1].filename)}:{tb[-1].lineno}")
+            raise core.Unsupported(f"contract binding failed at {where}: {type(ex).__name__}: {ex}")
         rep['functions'] = src.functions
         rep['edits_applied'] = [i in src.applied for i in range(len(src.edits))]
         rep['info'] = info
